@@ -116,6 +116,10 @@ def run(chk, prog, tier):
     chk.analysed["roles"] = roles.describe()
     fresh_record_rule(chk, prog, roles)
     PL.zero_read_rule(chk, prog, roles)
+    # each emitter is entered only from the per-line driver, which selects it by the mode: plain assembly cannot reach the padding
+    # emitter through another emitter (a chunk size left behind by an earlier setting would then pad plain code)
+    from checks import C07
+    C07.who_rule(chk, prog, roles)
     # errno is process-wide state that survives from one line (and one instance) to the next: it is read only after being cleared
     from checks import C15
     C15.errno_rule(chk, prog)
